@@ -53,6 +53,7 @@ TReset == /\ (IsEvent("reset") \/ IsEvent("abort"))
           /\ dsk' = [tr |-> <<[a \in Accts |-> ZeroAcc], [v \in Vals |-> NoVal], <<>>, [k \in RecKeys |-> NoRec], {}>>,
                      blobs |-> [code |-> {}, dl |-> {}, st |-> {}]]
           /\ cacc' = [a \in Accts |-> ZeroAcc] /\ fl' = TRUE /\ garb' = FALSE /\ fo' = FALSE
+          /\ ch' = <<>> /\ orec' = [k \in RecKeys |-> NoRec] /\ hasOther' = FALSE
           /\ clean' = "commit" /\ copyOk' = TRUE /\ failed' = FALSE /\ hist' = <<>>
 
 Act(e) == LET a == e.args IN
@@ -78,6 +79,11 @@ Act(e) == LET a == e.args IN
      [] e.ev = "Flush"      -> Flush /\ DumpMatches(e.disk, acc, val, wq, rec, rel)
      [] e.ev = "GC"         -> GC
      [] e.ev = "Restart"    -> Restart /\ DumpMatches(e.live, acc', val', wq', rec', rel')
+     [] e.ev = "ReloadOld"  -> ReloadOld(a.d) /\ LET c == ch[Len(ch) - a.d + 1] IN DumpMatches(e.re, c[1], c[2], c[3], c[4], c[5])
+     [] e.ev = "AddRecordOther" -> /\ AddRecordOther(a.a, a.v, a.h, a.d)
+                                   /\ LET d == e.fz[Len(e.fz)] IN
+                                      { <<d[6][k][1], d[6][k][2], d[6][k][3], d[6][k][4]>> : k \in DOMAIN d[6] }
+                                        = { <<k[1], k[2], orec'[k].val, orec'[k].tx>> : k \in { j \in RecKeys : orec'[j].ex } }
      [] OTHER -> FALSE
 
 \* the end marker of a behaviour: the main object's final dump (after a last root computation) against the model
